@@ -1,11 +1,34 @@
 """C18 — time-warping cost is the optimal coupling cost and the matching realises it
 (tracklib/algo/comparison.py: match / compare in the DTW, FDTW and FRECHET modes)."""
 import math, itertools
-from engine import Prop, fbits, bitsf, close, untok, err_kind, load_known
+from engine import Prop, fbits, bitsf, untok, err_kind, load_known
 
 PS = ["1", "2", "inf"]
 PVAL = {"1": 1, "2": 2, "inf": float("inf")}
 TOL = 1e-9
+TINY = 1e-290
+
+
+def rclose(a, b, rel=TOL):
+    """scale-free comparison of what the check compares (costs, distances, coordinate differences, lists / dicts of them):
+    numbers by RELATIVE tolerance only. An accumulated cost is a sum or a maximum of non-negative terms d**p, each computed
+    from differences of the given coordinates without cancellation, so two correct evaluations agree to a few ulps whatever
+    the unit of the coordinates (degrees, kilometres, millimetres); an absolute tolerance (engine.close allows 1e-9) would
+    make the check blind on tracks whose coordinates are small numbers."""
+    if isinstance(a, bool) or isinstance(b, bool):
+        return a == b
+    if isinstance(a, (int, float)) and isinstance(b, (int, float)):
+        fa, fb = float(a), float(b)
+        if fa != fa or fb != fb:
+            return fa != fa and fb != fb
+        if math.isinf(fa) or math.isinf(fb):
+            return fa == fb
+        return abs(fa - fb) <= rel * max(abs(fa), abs(fb)) + TINY
+    if isinstance(a, (list, tuple)) and isinstance(b, (list, tuple)):
+        return len(a) == len(b) and all(rclose(x, y, rel) for x, y in zip(a, b))
+    if isinstance(a, dict) and isinstance(b, dict):
+        return a.keys() == b.keys() and all(rclose(a[k], b[k], rel) for k in a)
+    return a == b
 
 # ---------------------------------------------------------------------------------- how the exponent p is handed over
 # forms of a finite p = 0, 1, 2, 3 and of p = infinity; "fn" = a lambda computing the accumulation, "max" = the builtin
@@ -15,10 +38,15 @@ INF_FORMS = ["float", "math.inf", "np.inf", "np.float16", "np.float32", "np.floa
 # numpy scalar types whose name contains neither 'int' nor 'float': _p2weight leaves `weight` unbound for p not in {0, inf}
 UNBOUND_FORMS = ["np.longlong", "np.ulonglong", "np.longdouble"]
 LOWPREC_FORMS = ["np.float16", "np.float32"]
+# styles of random tracks whose unit is drawn per case (rand_frame): the same shapes from 1e-6 to 1e7 units
+SCALED_STYLES = ["walk", "neardup", "slat"]
 MODE_MATCH = {"dtw": 2, "fdtw": 3, "frechet": 4}
 MODE_CMP = {"dtw": 106, "fdtw": 107, "frechet": 108}
 CLS_UNBOUND = "p-numpy-type-name-without-int-or-float"
 CLS_LOWPREC = "fdtw-exponent-float16-float32"
+CLS_INTPOW = "fdtw-int-distance-small-numpy-int-exponent"
+# numpy integer types of at most 32 bits: `B ** p` with B a Python int converts B to the type of p (OverflowError when it does not fit)
+SMALLINT_FORMS = ["np.int8", "np.int16", "np.int32", "np.intc", "np.uint8", "np.uint16", "np.uint32"]
 
 
 # ---------------------------------------------------------------------------------- tracks
@@ -142,7 +170,7 @@ def check_matching(C, p, out, n1, n2, what, cost=True):
     a = 0.0
     for (i, j) in path:
         a = acc(p, a, C[i][j])
-    if not close(a, out["score"], TOL):
+    if not rclose(a, out["score"], TOL):
         return "%s: the returned matching %s costs %r but the reported score is %r" % (what, pairs, a, out["score"])
     return None
 
@@ -282,12 +310,13 @@ class P(Prop):
             r = rng.random()
             hi = 8 if r < 0.9 else 12
             n1, n2 = rng.randint(1, hi), rng.randint(1, hi)
-            style = rng.choice(["lat3", "lat3", "lat2", "half", "float", "line", "utm"])
+            style = rng.choice(["lat3", "lat3", "lat2", "half", "float", "line", "utm", "walk", "neardup", "neardup", "slat"])
             dim = rng.choice([1, 2, 2, 3])
             mode = rng.choice(["dtw", "dtw", "fdtw", "frechet"])
             ps = ["inf"] if mode == "frechet" else [rng.choice(PS)]
-            a = self.rand_track(rng, n1, style)
-            b = self.rand_track(rng, n2, style)
+            fr = self.rand_frame(rng, style)
+            a = self.rand_track(rng, n1, style, fr)
+            b = self.rand_track(rng, n2, style, fr)
             if k % 10 == 9:
                 out.append({"kind": "cmp", "mode": mode, "p": ps[0], "dim": dim, "a": a, "b": b})
             else:
@@ -353,13 +382,17 @@ class P(Prop):
 
     def rand_session(self, rng):
         nt = rng.randint(2, 4)
-        style = rng.choice(["lat3", "lat3", "lat3", "lat2", "lat2", "half", "half", "float", "float", "line", "line", "utm", "utm", "far"])
+        style = rng.choice(["lat3", "lat3", "lat3", "lat2", "lat2", "half", "half", "float", "float", "line", "line", "utm", "utm", "far",
+                            "walk", "neardup", "neardup", "slat"])
         hi = 4 if rng.random() < 0.6 else 7
-        tracks = [self.rand_track(rng, rng.randint(1, hi), style) for _ in range(nt)]
+        fr = self.rand_frame(rng, style)
+        tracks = [self.rand_track(rng, rng.randint(1, hi), style, fr) for _ in range(nt)]
         pre = [rng.choice(["lists", "scalars", "partial"]) if rng.random() < 0.12 else "none" for _ in range(nt)]
         ct = rng.choice(["float", "float", "np.float64", "int"])
         if ct == "int" and not all(float(v).is_integer() for t in tracks for q in t for v in q):
             ct = "float"
+        if ct == "int" and CLS_INTPOW not in self.listed and any(abs(v) > 100 for t in tracks for q in t for v in q):
+            ct = "float"     # altitudes as Python ints more than 127 apart + FDTW + dim 1 + p a small numpy integer: see classify()
         steps, okres = [], []
         for k in range(rng.choice([1, 1, 2, 2, 3, 4])):
             f = "m" if rng.random() < 0.8 else "c"
@@ -392,7 +425,41 @@ class P(Prop):
             case["ct"] = ct      # the coordinates are handed to ENUCoords as Python ints / numpy.float64 instead of Python floats
         return case
 
-    def rand_track(self, rng, n, style):
+    def rand_frame(self, rng, style):
+        """what the tracks of one case share: the unit of the coordinates (a factor 1e-6 .. 1e7) and where they are"""
+        if style not in SCALED_STYLES:
+            return None
+        if style == "slat":     # a power of two: the lattice stays exact, ties between predecessors survive the change of unit
+            s = 2.0 ** rng.randint(-20, 23)
+            return {"s": s, "o": [0.0, 0.0, 0.0]}
+        s = 10.0 ** rng.randint(-6, 7)
+        k = rng.choice([0, 0, 1, 30, 1000])   # the origin: at 0, or up to 1000 units away (lon/lat of a town, a projected survey)
+        return {"s": s, "o": [round(rng.uniform(-k, k), 3) * s for _ in range(3)]}
+
+    def rand_track(self, rng, n, style, frame=None):
+        if style in SCALED_STYLES:
+            s, o = frame["s"], frame["o"]
+            if style == "slat":
+                return [[rng.randint(0, 2) * s, rng.randint(0, 2) * s, rng.randint(0, 2) * s] for _ in range(n)]
+            # a walk: steps of about one unit; in `neardup` four steps in ten are tiny (1e-3 .. 1e-9 of a unit: two fixes that
+            # differ, but by less than any fixed tolerance) and one in ten is null (the same fix twice)
+            q = [o[c] + rng.uniform(-2, 2) * s for c in range(3)]
+            tr = [list(q)]
+            for _ in range(n - 1):
+                r = rng.random()
+                if style == "neardup" and r < 0.1:
+                    f = 0.0
+                elif style == "neardup" and r < 0.5:
+                    f = 10.0 ** -rng.choice([3, 4, 5, 6, 7, 9])
+                else:
+                    f = 1.0
+                nq = [q[c] + rng.uniform(-1, 1) * s * f for c in range(3)]
+                if f != 0.0 and nq == q:          # below the resolution of a double at this offset: one ulp on one axis
+                    c = rng.randrange(3)
+                    nq[c] = math.nextafter(q[c], math.inf)
+                q = nq
+                tr.append(list(q))
+            return tr
         if style == "lat3":
             return [[rng.randint(0, 2), rng.randint(0, 2), rng.randint(0, 2)] for _ in range(n)]
         if style == "lat2":
@@ -431,16 +498,31 @@ class P(Prop):
                     T[i][j] = acc(p, v[0], C[i][j])
         return tie
 
+    @staticmethod
+    def geom_tags(tracks):
+        """unit of the coordinates (decade of the extent of the fixes) and how close consecutive fixes come"""
+        allp = [q for t in tracks for q in t]
+        if not allp:
+            return {}
+        ext = max(max(q[c] for q in allp) - min(q[c] for q in allp) for c in range(3))
+        gaps = [max(abs(a[c] - b[c]) for c in range(3)) for t in tracks for a, b in zip(t, t[1:])]
+        near = "none (single fixes)"
+        if gaps:
+            pos = [g for g in gaps if g > 0]
+            near = "distinct, closer than 1e-4 on every axis" if pos and min(pos) < 1e-4 else \
+                ("identical" if len(pos) < len(gaps) else "apart")
+        return {"extent_decade": "0" if ext == 0 else "1e%d" % math.floor(math.log10(ext)), "consecutive_fixes": near}
+
     def describe(self, case):
         if case["kind"] == "seq":
             sts = case["steps"]
-            return {"kind": "seq", "calls": len(sts), "front": ",".join(sorted({st["f"] for st in sts})),
+            return {"kind": "seq", **self.geom_tags([pts(t) for t in case["tracks"]]), "calls": len(sts), "front": ",".join(sorted({st["f"] for st in sts})),
                     "first_argument_already_matched": any(st["a"].startswith("r") for st in sts),
                     "track_with_earlier_features": any(q != "none" for q in case["pre"]),
                     "p_form": sts[0]["pf"], "p": sts[0]["p"], "mode": sts[0]["mode"], "coordinates": case.get("ct", "float"),
                     "argument_style": "%s mode=%s dim=%s verbose=%s" % (sts[0]["st"], sts[0]["mf"], sts[0]["df"], sts[0]["vb"])}
         t1, t2 = pts(case["a"]), pts(case["b"])
-        return {"kind": case["kind"], "mode": case["mode"], "dim": case["dim"],
+        return {"kind": case["kind"], "mode": case["mode"], "dim": case["dim"], **self.geom_tags([t1, t2]),
                 "p": ",".join(case["ps"]) if case["kind"] == "m" else case["p"],
                 "sizes": "%s x %s" % (min(len(t1), 9), min(len(t2), 9)) if max(len(t1), len(t2)) <= 4 else "larger",
                 "tie_between_predecessors": self.has_tie(case) if len(t1) > 1 and len(t2) > 1 else False}
@@ -611,7 +693,7 @@ class P(Prop):
                     return "call %d: impl=%s model=%s" % (k, str(io)[:200], str(mo)[:200])
                 continue
             if st["f"] == "c":
-                if not close(io["value"], mo["value"], TOL):
+                if not rclose(io["value"], mo["value"], TOL):
                     return "call %d: compare impl=%r model=%r" % (k, io["value"], mo["value"])
                 continue
             if io["pairs"] != mo["pairs"]:
@@ -620,12 +702,12 @@ class P(Prop):
                 Cm = cost_matrix(t1, t2, st["dim"], pe)
                 bad = check_matching(Cm, pe, io, len(t1), len(t2), "implementation", pe != "0") or \
                     check_matching(Cm, pe, mo, len(t1), len(t2), "model", pe != "0")
-                if bad or not close(io["score"], mo["score"], TOL):
+                if bad or not rclose(io["score"], mo["score"], TOL):
                     return "call %d: pairs impl=%s model=%s (%s)" % (k, io["pairs"], mo["pairs"], bad or "scores differ")
                 if self.exact_tracks(t1, t2, st["dim"]):
                     return "call %d: exact-arithmetic input, yet the couplings differ: impl=%s model=%s" % (k, io["pairs"], mo["pairs"])
                 continue
-            if not close(io, mo, TOL):
+            if not rclose(io, mo, TOL):
                 return "call %d: impl=%s model=%s" % (k, io, mo)
         return None
 
@@ -646,13 +728,13 @@ class P(Prop):
             if pe != "inf":
                 return None   # (score/nb_links)^(1/p): not part of the statement; correspondence only
             want = optimum(cost_matrix(t1, t2, dim, "inf"), "inf")
-            if not close(o["value"], want, TOL):
+            if not rclose(o["value"], want, TOL):
                 return "%s = %r, the discrete Frechet distance (least maximal link over all couplings) is %r" % (what, o["value"], want)
             return None
         Cm = cost_matrix(t1, t2, dim, pe if pe != "0" else "1")
         if pe != "0":      # p = 0 (number of links with a non-zero distance; 0**0 is a convention): only the matching is judged
             want = optimum(Cm, pe)
-            if not close(o["score"], want, TOL):
+            if not rclose(o["score"], want, TOL):
                 return "%s: score %r, the least accumulated cost over all monotone couplings for the requested p is %r" % (what, o["score"], want)
         return check_matching(Cm, pe, o, n1, n2, what, pe != "0")
 
@@ -760,7 +842,7 @@ class P(Prop):
                 return None
             return "impl=%s model=%s" % (impl_out, model_out)
         if case["kind"] == "cmp":
-            return Prop.compare(self, case, impl_out, model_out)
+            return None if rclose(impl_out, model_out, TOL) else "impl=%s model=%s" % (impl_out, model_out)
         t1, t2 = pts(case["a"]), pts(case["b"])
         for p in case["ps"]:
             io, mo = impl_out[p], model_out[p]
@@ -769,15 +851,15 @@ class P(Prop):
                 # differently because of the last bit of a float): validated by the property's oracle
                 C = cost_matrix(t1, t2, case["dim"], p)
                 bad = check_matching(C, p, io, len(t1), len(t2), "implementation") or check_matching(C, p, mo, len(t1), len(t2), "model")
-                if bad or not close(io["score"], mo["score"], TOL):
+                if bad or not rclose(io["score"], mo["score"], TOL):
                     return "p=%s: pairs impl=%s model=%s (%s)" % (p, io["pairs"], mo["pairs"], bad or "scores differ")
                 if self.exact(case):
                     return "p=%s: exact-arithmetic input, yet the couplings differ: impl=%s model=%s" % (p, io["pairs"], mo["pairs"])
                 for k in ("score", "score_swapped", "score_fast", "compare"):
-                    if k in io and not close(io[k], mo[k], TOL):
+                    if k in io and not rclose(io[k], mo[k], TOL):
                         return "p=%s: %s impl=%r model=%r" % (p, k, io[k], mo[k])
                 continue
-            if not close(io, mo, TOL):
+            if not rclose(io, mo, TOL):
                 return "p=%s: impl=%s model=%s" % (p, io, mo)
         return None
 
@@ -815,7 +897,7 @@ class P(Prop):
             if p != "inf":
                 return None   # (score/nb_links)^(1/p): not part of the statement; correspondence only
             want = optimum(cost_matrix(t1, t2, dim, "inf"), "inf")
-            if not close(out["value"], want, TOL):
+            if not rclose(out["value"], want, TOL):
                 return "compare(%s) = %r, the discrete Frechet distance (least maximal link over all couplings) is %r" % (mode, out["value"], want)
             return None
         for p in case["ps"]:
@@ -824,21 +906,24 @@ class P(Prop):
             C = cost_matrix(t1, t2, dim, pe)
             want = optimum(C, pe)
             what = "%s p=%s dim=%d" % (mode, pe, dim)
-            if not close(o["score"], want, TOL):
+            if not rclose(o["score"], want, TOL):
                 return "%s: score %r, the least accumulated cost over all monotone couplings is %r" % (what, o["score"], want)
-            if not close(o["score_swapped"], o["score"], TOL):
+            if not rclose(o["score_swapped"], o["score"], TOL):
                 return "%s: score %r but %r with the two tracks swapped" % (what, o["score"], o["score_swapped"])
             bad = check_matching(C, pe, o, n1, n2, what)
             if bad:
                 return bad
-            if "score_fast" in o and not close(o["score_fast"], o["score"], TOL):
+            if "score_fast" in o and not rclose(o["score_fast"], o["score"], TOL):
                 return "%s: the fast variant reports %r, DTW reports %r" % (what, o["score_fast"], o["score"])
-            if "compare" in o and not close(o["compare"], want, TOL):
+            if "compare" in o and not rclose(o["compare"], want, TOL):
                 return "%s: compare(FRECHET) = %r, the discrete Frechet distance is %r" % (what, o["compare"], want)
         return None
 
     def classify(self, case, impl_out, msg):
-        """two classes, each a decidable predicate on the first failing call of a session:
+        """three classes, each a decidable predicate on the first failing call of a session:
+        fdtw-int-distance-small-numpy-int-exponent: FDTW with dim = 1 on tracks whose altitudes are Python ints, p >= 1 a numpy
+            integer of at most 32 bits: `_fdtw` hands the raw `abs(U1 - U2)` (a Python int) to `B**p`, numpy converts B to the
+            type of p and raises OverflowError when it does not fit (`_dtw` reads the distance back from a float64 array);
         p-numpy-type-name-without-int-or-float: p is a numpy scalar of type longlong / ulonglong / longdouble with a value other
             than 0 and infinity, and the call raised UnboundLocalError (`_p2weight` recognises numbers by the substrings
             'int' / 'float' of the type name);
@@ -855,6 +940,9 @@ class P(Prop):
             return cls
         if cls == CLS_LOWPREC and "err" not in o:
             return cls
+        if (case.get("ct") == "int" and st["mode"] == "fdtw" and st["dim"] == 1 and st["pf"] in SMALLINT_FORMS
+                and st["p"] not in ("0", "inf") and o.get("err") == "err:OverflowError"):
+            return CLS_INTPOW
         return None
 
     # ---------------------------------------------------------------- shrinking / search
@@ -903,6 +991,11 @@ class P(Prop):
                         t2 = [list(q) for q in t]
                         t2[k][c] = 0.0 if abs(t[k][c]) <= 1 else float(int(t[k][c] / 2))
                         yield dict(case, tracks=trs[:i] + [t2] + trs[i + 1:])
+        for i, t in enumerate(trs):      # fewer digits (the unit of the coordinates is kept)
+            for nd in (3, 6, 9):
+                t2 = [[float("%.*g" % (nd, v)) for v in q] for q in t]
+                if t2 != t:
+                    yield dict(case, tracks=trs[:i] + [t2] + trs[i + 1:])
 
     def as_session(self, case):
         """a single-call case written as a session"""
@@ -966,6 +1059,11 @@ class P(Prop):
                         t2 = [list(q) for q in t]
                         t2[k][c] = 0.0 if abs(t[k][c]) <= 1 else float(int(t[k][c] / 2))
                         yield dict(case, **{"a": a, "b": b, which: t2})
+        for which, t in (("a", a), ("b", b)):      # fewer digits (the unit of the coordinates is kept)
+            for nd in (3, 6, 9):
+                t2 = [[float("%.*g" % (nd, v)) for v in q] for q in t]
+                if t2 != t:
+                    yield dict(case, **{"a": a, "b": b, which: t2})
 
     def search_cases(self, rng):
         # the quick scopes again (other random draws) rather than the 290 k cases of the thorough tier
